@@ -504,7 +504,8 @@ def run(ctx):
             # an old-style single-test class (a runTest method and no test* methods) that carries the tag - on the class or
             # on the method: it runs under the tagged option and is named by the list option like any other tagged test
             on_class = rng.random() < 0.5
-            classes = list(classes) + [('TR', None, on_class, [('runTest', not on_class)])]
+            untagged = rng.random() < 0.35          # ... and one without any tag: never run or listed under the options
+            classes = list(classes) + [('TR', None, on_class and not untagged, [('runTest', (not on_class) and not untagged)])]
             argv = [a for a in argv if a not in [c[0] for c in classes]] + rng.choice([[], ['TR']])
             tail = []
             extra = 'runtest'
